@@ -8,7 +8,7 @@ from vf.core.base import Violation
 from vf.core.env import Env
 from vf.core.expr import Undecodable
 from vf.core.gen import Cfg, st_program
-from vf.core.prog import BuildError, build_all, decode, describe_case, ev_bag, fmt, kinds, lib_nodes, n_ops
+from vf.core.prog import BuildError, build_all, decode, describe_case, engine_of, ev_bag, fmt, kinds, lib_nodes, n_ops, walk
 from vf.checks.c02 import is_order_loss
 
 ID = "C16"
@@ -23,6 +23,7 @@ LEVEL_TEXT = (
     "is put on top of iteration roots and answered for by the truthful executor."
     "  Trees with materializations are evaluated (payloads attached) and diagnosed again, with and without the "
     "executor."
+    "  For iteration-only programs the program over twin leaves (same leaf names, other rows) and the program itself are also chained into ONE tree and diagnosed with an executor that really executes what it is asked about."
 )
 LEVEL_NOTE = (
     "trusts: the harness executor answers from the reference evaluator applied to the decoded sub-relation it is handed "
@@ -91,8 +92,36 @@ def run_case(case, stats):
                 for n in lib_nodes(rels2[id(prog)]):
                     n.min_rows, n.max_rows
                 stats.c["twin-programs-first"] += 1
+                twin_root = rels2[id(prog)]
             except Exception:
-                pass
+                twin_root = None
+            try:
+                # relations that print the same are not the same: the program over the twin leaves (same leaf names) and
+                # the program itself in ONE tree, diagnosed with an executor that really executes what it is asked about
+                if twin_root is not None and all(engine_of(n, leaves) != 0 for n in walk(prog)):
+                    for what, both in (("twin program chained with the program", lambda: twin_root.chain(root)), ("program chained with its twin", lambda: root.chain(twin_root))):
+                        try:
+                            tree = both()
+                        except (ColumnError, EngineError):
+                            continue
+
+                        def run_it(rel):
+                            return len(env.run_iter(rel)) > 0
+
+                        try:
+                            has_rows = run_it(tree)
+                            dd = Diagnostics.run(tree, run_it)
+                        except Violation:
+                            raise
+                        except Exception as e:
+                            raise Violation("diagnostics-raised", f"{what} (same leaf names, other rows): {type(e).__name__}: {e}; program {fmt(prog, leaves)}", exc=e)
+                        if dd.is_doomed == has_rows:
+                            raise Violation(
+                                "doomed-but-has-rows" if dd.is_doomed else "not-doomed-but-empty",
+                                f"{what} (two distinct sets of leaves with the same names in one tree), executor that executes: is_doomed={dd.is_doomed}, tree has rows: {has_rows}; messages {dd.messages}; program {fmt(prog, leaves)}; tree {str(tree)[:300]}",
+                                half="executor",
+                            )
+                        stats.c["twin-in-one-tree"] += 1
             finally:
                 tw.close_tables()
         truth = ev_bag(prog, leaves)
@@ -187,7 +216,6 @@ def run_case(case, stats):
         if "mat" in kinds(prog) and truth.det and not state["ambiguous"] and empty_known:
             from lsst.daf.relation import Materialization
 
-            from vf.core.prog import lib_nodes
 
             try:
                 if which == "iter":
